@@ -312,6 +312,45 @@ func (fr *Frame) applyContract(fc *FuncContract, site ssa.Instruction, obj *type
 			ab = append(ab, Binding{term: args[i], typ: tys[i]})
 		}
 		top.callArgs[nm] = ab
+		// per call site: <callee>#<k>, k = ordinal of this call among the calls of that callee in the function
+		k := 0
+		if site != nil && site.Parent() != nil {
+		count:
+			for _, b := range site.Parent().Blocks {
+				for _, ins := range b.Instrs {
+					if ins == site {
+						break count
+					}
+					var cc *ssa.CallCommon
+					switch x := ins.(type) {
+					case *ssa.Call:
+						cc = &x.Call
+					case *ssa.Defer:
+						cc = &x.Call
+					}
+					if cc == nil {
+						continue
+					}
+					var other string
+					if cc.IsInvoke() {
+						other = cc.Method.Name()
+					} else if f, ok := cc.Value.(*ssa.Function); ok {
+						other = f.Name()
+						if o := f.Origin(); o != nil {
+							other = o.Name()
+						}
+					}
+					if other == nm {
+						k++
+					}
+				}
+			}
+		}
+		nmk := fmt.Sprintf("%s#%d", nm, k)
+		top.callArgs[nmk] = ab
+		defer func() {
+			top.callRes[nmk] = top.callRes[nm]
+		}()
 		defer func(nm string) {
 			// results of the (last) call, for res(callee, i) in postconditions
 			var rb []Binding
@@ -448,6 +487,9 @@ func (fr *Frame) applyContract(fc *FuncContract, site ssa.Instruction, obj *type
 			// trusted contract without preconditions are assumptions everywhere and listed as such)
 			continue
 		}
+		if usesCallRefs(c.Expr) {
+			continue // clauses over res()/arg() describe the callee's own calls: meaningless to its callers
+		}
 		vc.assume(st.guard, mk(st).evalBool(c.Expr, c))
 	}
 	for _, c := range fc.Defines_ {
@@ -455,6 +497,28 @@ func (fr *Frame) applyContract(fc *FuncContract, site ssa.Instruction, obj *type
 	}
 	lastOut = out
 	return out
+}
+
+// usesCallRefs: does the expression mention res()/arg()/res2()/arg2() ?
+func usesCallRefs(e *CExpr) bool {
+	if e == nil {
+		return false
+	}
+	if e.Kind == "call" && e.X != nil && e.X.Kind == "ident" {
+		switch e.X.Name {
+		case "res", "arg", "res2", "arg2":
+			return true
+		}
+	}
+	if usesCallRefs(e.X) || usesCallRefs(e.Y) {
+		return true
+	}
+	for _, a := range e.Args {
+		if usesCallRefs(a) {
+			return true
+		}
+	}
+	return false
 }
 
 func (fr *Frame) safeEval(ctx *EvalCtx, e *CExpr) (tv TV) {
@@ -579,8 +643,111 @@ func (fr *Frame) havocCells(st *State, t types.Type, addr *Term) {
 }
 
 // callModifies adds the components a call may modify (for loop havoc).
+// lvalueStaticType resolves the static type of a modifies item such as "*destination", "r.features" or
+// "c.entries[len(c.entries)]" from the callee's signature (nil when it cannot be resolved).
+func lvalueStaticType(m string, sig *types.Signature) types.Type {
+	if sig == nil {
+		return nil
+	}
+	e, err := parseCExpr(m)
+	if err != nil {
+		return nil
+	}
+	var walk func(e *CExpr) types.Type
+	walk = func(e *CExpr) types.Type {
+		switch e.Kind {
+		case "ident":
+			if r := sig.Recv(); r != nil && r.Name() == e.Name {
+				return r.Type()
+			}
+			for i := 0; i < sig.Params().Len(); i++ {
+				if sig.Params().At(i).Name() == e.Name {
+					return sig.Params().At(i).Type()
+				}
+			}
+			for i := 0; i < sig.Results().Len(); i++ {
+				if sig.Results().At(i).Name() == e.Name {
+					return sig.Results().At(i).Type()
+				}
+			}
+			return nil
+		case "unop":
+			if e.Name == "*" {
+				if t := walk(e.X); t != nil {
+					if pt, ok := t.Underlying().(*types.Pointer); ok {
+						return pt.Elem()
+					}
+				}
+			}
+			return nil
+		case "sel":
+			t := walk(e.X)
+			if t == nil {
+				return nil
+			}
+			obj, _, _ := types.LookupFieldOrMethod(t, true, nil, e.Name)
+			if obj == nil {
+				// unexported field: look it up by hand through pointers and embedded structs
+				var find func(t types.Type, depth int) types.Type
+				find = func(t types.Type, depth int) types.Type {
+					if depth > 4 {
+						return nil
+					}
+					if pt, ok := t.Underlying().(*types.Pointer); ok {
+						t = pt.Elem()
+					}
+					st, ok := t.Underlying().(*types.Struct)
+					if !ok {
+						return nil
+					}
+					for i := 0; i < st.NumFields(); i++ {
+						if st.Field(i).Name() == e.Name {
+							return st.Field(i).Type()
+						}
+					}
+					for i := 0; i < st.NumFields(); i++ {
+						if st.Field(i).Embedded() {
+							if r := find(st.Field(i).Type(), depth+1); r != nil {
+								return r
+							}
+						}
+					}
+					return nil
+				}
+				return find(t, 0)
+			}
+			if v, ok := obj.(*types.Var); ok {
+				return v.Type()
+			}
+			return nil
+		case "index":
+			t := walk(e.X)
+			if t == nil {
+				return nil
+			}
+			switch u := t.Underlying().(type) {
+			case *types.Slice:
+				return u.Elem()
+			case *types.Array:
+				return u.Elem()
+			case *types.Map:
+				return nil
+			}
+			return nil
+		}
+		return nil
+	}
+	return walk(e)
+}
+
 func (fr *Frame) callModifies(c *ssa.CallCommon, set map[string]bool) {
 	vc := fr.vc
+	sigOf := c.Signature()
+	if c.IsInvoke() {
+		sigOf = c.Method.Type().(*types.Signature)
+	} else if f, ok := c.Value.(*ssa.Function); ok {
+		sigOf = f.Signature
+	}
 	addFC := func(fc *FuncContract) {
 		if fc.Pure {
 			return
@@ -613,8 +780,17 @@ func (fr *Frame) callModifies(c *ssa.CallCommon, set map[string]bool) {
 				fr.mapKeys(g.Go, set)
 				continue
 			}
-			// lvalue: havoc all cells of its static type; type resolution needs evaluation, so be coarse:
-			set["?lvalue:"+m] = true
+			// lvalue: all cells of its static type (resolved from the callee's parameter types); when the type
+			// cannot be resolved every heap component materialised so far counts as modified
+			if t := lvalueStaticType(m, sigOf); t != nil {
+				fr.typeCells(t, set)
+				continue
+			}
+			for k := range vc.compSort {
+				if strings.HasPrefix(k, "H:") || strings.HasPrefix(k, "MD:") || strings.HasPrefix(k, "MV:") {
+					set[k] = true
+				}
+			}
 		}
 	}
 	if c.IsInvoke() {
